@@ -77,8 +77,25 @@ class Check:
     def post_batch(self, tier, seed, agg):
         return []
 
+    # violations of the infrastructure oracle that this property's statement covers as well:
+    # {(property, clause, algorithm) -> clause of this property}; algorithm None = any
+    adopt = {}
+
     def run(self, sc):
-        return run_scenario(sc, self.oracles, judged=self.judged or {self.prop})
+        res = run_scenario(sc, self.oracles, judged=self.judged or {self.prop})
+        if res.foreign is not None and self.adopt:
+            f = res.foreign
+            for (prop, clause, algo), mine in self.adopt.items():
+                if f["property"] == prop and (clause is None or f["clause"] == clause) and (algo is None or f["algo"].split(":")[0] == algo):
+                    info = dict(f)
+                    info["detail"] = "%s [observed by the ledger as %s/%s]" % (f["detail"], f["property"], f["clause"])
+                    info["property"] = self.prop
+                    info["clause"] = mine
+                    info["signature"] = engine.signature(info)
+                    res.violation = info
+                    res.foreign = None
+                    break
+        return res
 
     def distinct_key(self, sc, res):
         rng = sc["rng"]
@@ -105,6 +122,20 @@ def _c(sc):
 
 def shrink_schedule(sc):
     out = []
+    if sc.get("neighbours"):
+        c = _c(sc)
+        c["neighbours"] = []
+        out.append(c)
+        for nb_i, nb in enumerate(sc["neighbours"]):
+            for key, val in (("pre", 0), ("every", 1)):
+                if nb.get(key) != val:
+                    c = _c(sc)
+                    c["neighbours"][nb_i][key] = val
+                    out.append(c)
+            if nb["sc"]["rounds"] > 5:
+                c = _c(sc)
+                c["neighbours"][nb_i]["sc"]["rounds"] = nb["sc"]["rounds"] // 2
+                out.append(c)
     if sc.get("schedule"):
         c = _c(sc)
         c["schedule"] = []
@@ -420,7 +451,8 @@ class CheckC04(Check):
         pool = gen.PARTS_BINARY_CHILD if algo == "VROOM" else None
         n = r.choice([100, 128, 200, 300, 400])
         # recommendation queries between rounds and between a pull and its reward (reads on the current tree)
-        sc = gen.base_scenario(r, seed, algo, parts=pool, n=n, cap_mode="big", ok_only=True, sched_prob=0.3, mid_prob=0.5)
+        sc = gen.base_scenario(r, seed, algo, parts=pool, n=n, cap_mode="big", ok_only=True, sched_prob=0.3, mid_prob=0.5,
+                               neighbour_prob=0.2)
         if algo in ("GPO", "PCT", "VPCT"):
             d = derived(sc)
             if d.get("gpo_L_zero"):
@@ -450,9 +482,10 @@ class CheckC05(Check):
 
     def generate(self, r, seed, tier):
         algo = gen.weighted(r, [("T_HOO", 3), ("HCT", 3), ("VHCT", 3), ("POO", 1.5), ("GPO", 1)])
-        n = r.choice([100, 128, 200, 300, 600]) if tier == "thorough" else r.choice([100, 128, 200, 300])
+        n = gen.gen_budget(r, 100, 600 if tier == "thorough" else 300)
         kinds = ["const", "int", "fewlevels", "gauss", "obj", "neg", "unit", "zero", "late", "altsign", "objneg"]
-        sc = gen.base_scenario(r, seed, algo, n=n, ok_only=True, reward_kinds=kinds, sched_prob=0.15 if algo != "GPO" else 0.0)
+        sc = gen.base_scenario(r, seed, algo, n=n, ok_only=True, reward_kinds=kinds, sched_prob=0.2 if algo != "GPO" else 0.0,
+                               mid_prob=0.4, neighbour_prob=0.25)
         if algo == "GPO" and derived(sc).get("gpo_L_zero"):
             sc["params"]["rhomax"] = 0.9
         if algo in ("HCT", "VHCT") and r.random() < 0.4:
@@ -495,9 +528,9 @@ class CheckC08(Check):
 
     def generate(self, r, seed, tier):
         algo = r.choice(["SOO", "StoSOO", "DOO"])
-        n = r.choice([100, 128, 200, 300, 400])
+        n = gen.gen_budget(r, 100, 400)
         kinds = ["const", "int", "fewlevels", "gauss", "obj", "neg", "unit", "zero", "late", "altsign", "objneg"]
-        return gen.base_scenario(r, seed, algo, n=n, reward_kinds=kinds)
+        return gen.base_scenario(r, seed, algo, n=n, reward_kinds=kinds, sched_prob=0.2, mid_prob=0.5, neighbour_prob=0.25)
 
 
 class CheckC12(Check):
@@ -517,8 +550,8 @@ class CheckC12(Check):
     probe_names = ["c12-depth-advance-by-last-unopened-cell", "c12-depth-advance-by-budget", "c12-schedule-exhausted"]
 
     def generate(self, r, seed, tier):
-        n = r.choice([10, 12, 17, 30, 50, 100, 128, 200, 300, 600])
-        sc = gen.base_scenario(r, seed, "SequOOL", n=n, T=r.choice([n, n, n, max(1, n // 2), r.randint(1, n)]),
+        n = r.choice([10, 12, 17, 30, 50, 100, 128, 200, 300, 600]) if r.random() < 0.3 else r.randint(10, 600)
+        sc = gen.base_scenario(r, seed, "SequOOL", n=n, neighbour_prob=0.15, T=r.choice([n, n, n, max(1, n // 2), r.randint(1, n)]),
                                reward_kinds=["const", "int", "fewlevels", "gauss", "obj", "neg", "unit", "zero", "late", "altsign"])
         if r.random() < 0.3:
             sc["schedule"] = [{"after": r.randint(max(1, sc["rounds"] - 20), sc["rounds"]), "times": 1} for _ in range(3)]
@@ -546,10 +579,11 @@ class CheckC07(Check):
     def generate(self, r, seed, tier):
         algo = gen.weighted(r, [("DOO", 3), ("SOO", 3), ("SequOOL", 3), ("StoSOO", 3), ("StroquOOL", 3), ("POO", 2), ("GPO", 1.5),
                                 ("PCT", 1), ("VPCT", 1)])
-        n = r.choice([100, 128, 200, 300, 400])
+        n = gen.gen_budget(r, 100, 400)
         kinds = ["neg", "neg", "zero", "const", "int", "fewlevels", "late", "objneg", "obj", "gauss", "altsign"]
         sc = gen.base_scenario(r, seed, algo, n=n, reward_kinds=kinds, ok_only=True, cap_mode=r.choice(["big", "tight"]),
-                               sched_prob=0.3 if algo in ("DOO", "SOO", "SequOOL", "StoSOO", "POO") else 0.0)
+                               sched_prob=0.3 if algo in ("DOO", "SOO", "SequOOL", "StoSOO", "POO") else 0.0, mid_prob=0.4,
+                               neighbour_prob=0.15)
         if algo in ("GPO", "PCT", "VPCT"):
             if derived(sc).get("gpo_L_zero"):
                 sc["params"]["rhomax"] = 0.9
@@ -614,8 +648,8 @@ class CheckC09(Check):
 
     def generate(self, r, seed, tier):
         algo = gen.weighted(r, [("GPO", 3), ("PCT", 1), ("VPCT", 1)])
-        n = r.choice([100, 128, 200, 300, 400, 600])
-        sc = gen.base_scenario(r, seed, algo, n=n, ok_only=False)
+        n = gen.gen_budget(r, 100, 600)
+        sc = gen.base_scenario(r, seed, algo, n=n, ok_only=False, neighbour_prob=0.2, sched_prob=0.2, mid_prob=0.5)
         sc["params"]["rhomax"] = r.choice([r.uniform(0.05, 0.97), r.uniform(0.8, 0.97)])
         if derived(sc).get("gpo_L_zero"):
             sc["params"]["rhomax"] = 0.9
@@ -654,8 +688,8 @@ class CheckC10(Check):
     probe_names = ["c10-second-creation-burst", "c10-round-robin-rounds", "c10-recommendations-judged"]
 
     def generate(self, r, seed, tier):
-        n = r.choice([100, 200, 300, 600] if tier == "quick" else [100, 200, 300, 600, 1000, 3000])
-        sc = gen.base_scenario(r, seed, "POO", n=n, ok_only=True, sched_prob=0.5)
+        n = gen.gen_budget(r, 100, 600) if tier == "quick" or r.random() < 0.7 else r.choice([1000, 1500, 3000])
+        sc = gen.base_scenario(r, seed, "POO", n=n, ok_only=True, sched_prob=0.5, mid_prob=0.5, neighbour_prob=0.2)
         sc["params"]["rhomax"] = r.uniform(0.84, 0.985)
         if r.random() < 0.7:
             sc["rounds"] = n
@@ -670,6 +704,7 @@ class CheckC11(Check):
     design_ref = "DESIGN.md 5.11"
     oracles = (Ledger, C11)
     judged = {"C11"}
+    adopt = {("C04", None, "Zooming"): "arm-stats"}
     sizes = {"quick": 12000, "thorough": 400000}
     chunk = 40
     technique = ("deterministic simulation: coverage invariant over the leaves, index maximality and refinement rule checked after every "
@@ -684,7 +719,8 @@ class CheckC11(Check):
 
     def generate(self, r, seed, tier):
         pool = gen.PARTS_ALL + gen.PARTS_MIDPOINT * 2
-        sc = gen.base_scenario(r, seed, "Zooming", parts=pool, n=r.choice([100, 200, 400]), sched_prob=0.2)
+        sc = gen.base_scenario(r, seed, "Zooming", parts=pool, n=gen.gen_budget(r, 100, 400), sched_prob=0.25, mid_prob=0.5,
+                               neighbour_prob=0.3)
         if r.random() < 0.5:
             sc["params"] = {"nu": gen.loguniform(r, 0.5, 20), "rho": r.uniform(0.5, 0.95)}
         return sc
@@ -698,6 +734,7 @@ class CheckC13(Check):
     design_ref = "DESIGN.md 5.13"
     oracles = (Ledger, C13)
     judged = {"C13"}
+    adopt = {("C04", "credit-set", "VROOM"): "credit-path", ("C04", "credit-value", "VROOM"): "credit-path"}
     sizes = {"quick": 3000, "thorough": 30000}
     chunk = 4
     technique = ("deterministic simulation with the simulator owning np.random.choice/randint/uniform: the probability vector passed, the "
@@ -711,8 +748,9 @@ class CheckC13(Check):
     probe_names = ["c13-cells-below-ranking-depth", "c13-draw-below-depth-cap"]
 
     def generate(self, r, seed, tier):
-        sc = gen.base_scenario(r, seed, "VROOM", parts=gen.PARTS_BINARY_CHILD, real_prob=0.2)
-        sc["params"]["n"] = r.choice([16, 20, 32, 50, 64, 100, 128] if tier == "thorough" else [16, 20, 32, 50, 64])
+        sc = gen.base_scenario(r, seed, "VROOM", parts=gen.PARTS_BINARY_CHILD, real_prob=0.2, sched_prob=0.25, mid_prob=0.5,
+                               neighbour_prob=0.3)
+        sc["params"]["n"] = r.choice([16, 20, 32, 50, 64]) if r.random() < 0.5 else r.randint(16, 128 if tier == "thorough" else 70)
         n = sc["params"]["n"]
         sd = int(math.floor(math.log2(n)))
         sc["params"]["h_max"] = r.choice([1, 2, sd - 1, sd, sd + 1, sd + 3, 20, 100, 500])
@@ -980,15 +1018,16 @@ class CheckC16(TwinCheck):
             if A["partition"] not in gen.PARTS_MIDPOINT:
                 A["partition"] = dict(r.choice(gen.PARTS_MIDPOINT))
         if mode == "scale2":
-            sc = {"scale": 2.0 ** r.randint(-20, 20), "shift": [0.0] * d, "cls": "exact"}
+            sc = {"scale": 2.0 ** r.choice([r.randint(-20, 20), r.randint(-30, -15), r.randint(15, 30)]), "shift": [0.0] * d, "cls": "exact"}
         elif mode == "shift-dyadic":
             A["domain"] = [[lo, lo + 2.0 ** r.randint(-2, 3)] for lo in [r.randint(-16, 16) / 4.0 for _ in range(d)]]
             A["rng"]["policy"]["dyadic"] = r.choice([2, 4])
             A["rng"]["policy"]["endpoint"] = 0.0
-            sc = {"scale": 1.0, "shift": [r.randint(-64, 64) / 4.0 for _ in range(d)], "cls": "exact"}
+            big = 2.0 ** r.choice([0, 0, 4, 10, 16, 20])
+            sc = {"scale": 1.0, "shift": [big * r.randint(-64, 64) / 4.0 for _ in range(d)], "cls": "exact"}
         else:
             sc = {"scale": gen.loguniform(r, 1e-3, 1e3) if r.random() < 0.7 else 1.0,
-                  "shift": [r.uniform(-100, 100) if r.random() < 0.8 else 0.0 for _ in range(d)], "cls": "tol"}
+                  "shift": [r.uniform(-100, 100) * r.choice([1, 1, 1e3, 1e5]) if r.random() < 0.8 else 0.0 for _ in range(d)], "cls": "tol"}
         sc["kind"] = "c16"
         sc["A"] = A
         sc["mode"] = mode
